@@ -2,7 +2,7 @@
 import ast
 import re
 
-from .. import coqrun, maskgen as G, py2gallina as pg
+from .. import coqrun, maskgen as G, py2gallina as pg, symex as X
 from ..core import Corr, Untranslatable, Violation
 
 ID = "C04"
@@ -30,49 +30,64 @@ def generate(ctx):
     path = ctx.src("direct/common/subsample.py")
     tree, src = pg.parse_file(path)
     out = "From DV Require Import Model.C04.\n"
-    # ---- _reshape_and_add_coil_axis: the list handed to reshape ----
-    fn = pg.find_def(tree, "BaseMaskFunc._reshape_and_add_coil_axis", path)
-    term = None
-    names = {}
-    tail = []
-    for s in pg.strip_doc(fn.body):
-        u = ast.unparse(s)
-        if isinstance(s, ast.Assign) and isinstance(s.targets[0], ast.Name) and isinstance(s.value, ast.Subscript) and ast.unparse(s.value.value) == "shape" and _idx(s.value.slice):
-            names[s.targets[0].id] = "(get_neg %d shape)" % _idx(s.value.slice)
-        elif u == "mask_shape = [1 for _ in shape]":
-            term = "(map (fun _ => 1) shape)"
-        elif isinstance(s, ast.Assign) and isinstance(s.targets[0], ast.Subscript) and ast.unparse(s.targets[0].value) == "mask_shape" and _idx(s.targets[0].slice) and term:
-            v = ast.unparse(s.value)
-            if v not in names:
-                raise Untranslatable("_reshape_and_add_coil_axis: unknown value %s" % v, s.lineno, path)
-            term = "(set_neg %d %s %s)" % (_idx(s.targets[0].slice), names[v], term)
-        elif isinstance(s, ast.If) and ast.unparse(s.test) == "self.mode in [MaskFuncMode.DYNAMIC, MaskFuncMode.MULTISLICE]" and len(s.body) == 1 and not s.orelse and term:
-            a = s.body[0]
-            if not (isinstance(a, ast.Assign) and ast.unparse(a.targets[0].value) == "mask_shape" and _idx(a.targets[0].slice) and isinstance(a.value, ast.Subscript) and ast.unparse(a.value.value) == "shape" and _idx(a.value.slice)):
-                raise Untranslatable("_reshape_and_add_coil_axis: dynamic branch outside subset", s.lineno, path)
-            term = "(if dyn then set_neg %d (get_neg %d shape) %s else %s)" % (_idx(a.targets[0].slice), _idx(a.value.slice), term, term)
+    # ---- _reshape_and_add_coil_axis: the list handed to reshape, per mode (symbolic execution, vlib/symex.py) ----
+    S = lambda n: ("sym", n)
+    shape = S("shape")
+    modes = ("list", (("attr", S("MaskFuncMode"), "DYNAMIC"), ("attr", S("MaskFuncMode"), "MULTISLICE")))
+    modes_alt = ("list", (modes[1][1], modes[1][0]))
+    is_dyn = lambda c: c[0] == "cmp" and c[1] == "in" and c[2] == ("attr", S("self"), "mode") and c[3] in (modes, modes_alt, ("tuple", modes[1]), ("tuple", modes_alt[1]))
+    t, _n = X.run_function(tree, path, "BaseMaskFunc._reshape_and_add_coil_axis", const_fill=True)
+    t = X.lift_ife(X.prune_raises(X.drop_do(t)))
+    terms = {}
+    for conds, lf in X.leaves(t):
+        dyn = [pol for c, pol in conds if is_dyn(c)]
+        if len(set(dyn)) != 1:
+            raise Untranslatable("_reshape_and_add_coil_axis: the path does not decide the mode test", None, path)
+        v = lf[1]
+        # coil axis in front: x[None, ...] or x.unsqueeze(0)
+        if v[0] == "sub" and v[2] == ("tuple", (X.NONE, X.const(Ellipsis))):
+            v = v[1]
+        elif v[0] == "call" and v[1][0] == "attr" and v[1][2] == "unsqueeze" and (list(v[2]) + [dict(v[3]).get("dim")])[0] == X.const(0):
+            v = v[1][1]
         else:
-            tail.append(u)
-    want_tail = ["if isinstance(mask, np.ndarray):\n    mask = torch.from_numpy(mask)", "mask = mask.reshape(*mask_shape).bool()", "mask = mask[None, ...]", "return mask"]
-    if term is None or tail != want_tail:
-        raise Untranslatable("_reshape_and_add_coil_axis: body outside subset (%s)" % tail, fn.lineno, path)
-    out += "Definition reshape_shape (dyn : bool) (shape : list Z) : list Z := 1 :: %s.\n" % term
-    # ---- __call__ guards ----
-    fn = pg.find_def(tree, "BaseMaskFunc.__call__", path)
-    body = pg.strip_doc(fn.body)
-    tr = pg.ExprT({"len(shape)": "rank"}, path, truthy_int=False)
-    g = []
-    for s in body[:-2]:
-        if not (isinstance(s, ast.If) and isinstance(s.body[0], ast.Raise)):
-            raise Untranslatable("__call__: expected guards", s.lineno, path)
-        t = s.test
-        if isinstance(t, ast.BoolOp) and isinstance(t.op, ast.And) and ast.unparse(t.values[0]) == "self.mode in [MaskFuncMode.DYNAMIC, MaskFuncMode.MULTISLICE]":
-            g.append("(dyn && %s)" % tr.b(t.values[1]))
-        else:
-            g.append(tr.b(t))
-    if [ast.unparse(x) for x in body[-2:]] != ["mask = self.mask_func(shape, *args, **kwargs)", "return mask"]:
-        raise Untranslatable("__call__: tail outside subset", fn.lineno, path)
-    out += "Definition call_rejects (dyn : bool) (rank : Z) : bool := %s.\n" % (" || ".join(g) if g else "false")
+            raise Untranslatable("_reshape_and_add_coil_axis: no coil axis added in front: %s" % X.show(v)[:100], None, path)
+        if not (v[0] == "call" and v[1][0] == "attr" and v[1][2] == "bool" and not v[2]):
+            raise Untranslatable("_reshape_and_add_coil_axis: result is not made boolean", None, path)
+        v = v[1][1]
+        if not (v[0] == "call" and v[1][0] == "attr" and v[1][2] == "reshape" and len(v[2]) == 1 and not v[3]):
+            raise Untranslatable("_reshape_and_add_coil_axis: no reshape(*mask_shape): %s" % X.show(v)[:100], None, path)
+        m, lst = v[1][1], v[2][0]
+        if m not in (S("mask"), ("call", ("attr", S("torch"), "from_numpy"), (S("mask"),), ())):
+            raise Untranslatable("_reshape_and_add_coil_axis: what is reshaped is not the mask", None, path)
+        lst = lst[1] if lst[0] == "star" else lst
+        writes = {}
+        while lst[0] == "set":
+            k, val = lst[2], lst[3]
+            if not (X.is_const(k) and type(k[1]) is int and k[1] < 0 and val[0] == "sub" and val[1] == shape and X.is_const(val[2]) and type(val[2][1]) is int and val[2][1] < 0):
+                raise Untranslatable("_reshape_and_add_coil_axis: a size is written that is not shape[-j] at a fixed place from the end: %s" % X.show(lst)[:100], None, path)
+            writes.setdefault(-k[1], -val[2][1])  # the outermost (last) write of a slot counts
+            lst = lst[1]
+        if lst != ("map", X.const(1), shape):
+            raise Untranslatable("_reshape_and_add_coil_axis: the list does not start as one 1 per entry of shape: %s" % X.show(lst)[:80], None, path)
+        term = "(map (fun _ => 1) shape)"
+        for k in sorted(writes):  # writes at distinct places commute: emitted from the last axis outwards
+            term = "(set_neg %d (get_neg %d shape) %s)" % (k, writes[k], term)
+        terms.setdefault(dyn[0], set()).add(term)
+    if set(terms) != {True, False} or any(len(v) != 1 for v in terms.values()):
+        raise Untranslatable("_reshape_and_add_coil_axis: the reshape list is not determined by the mode alone", None, path)
+    out += "Definition reshape_shape (dyn : bool) (shape : list Z) : list Z := 1 :: (if dyn then %s else %s).\n" % (terms[True].pop(), terms[False].pop())
+    # ---- __call__ guards: when the call raises, and that otherwise it is mask_func(shape, *args, **kwargs) ----
+    t, _n = X.run_function(tree, path, "BaseMaskFunc.__call__", opaque={"mask_func"})
+    t = X.drop_do(t)
+    rank = ("call", S("len"), (shape,), ())
+    em = X.Emit(lambda v: "rank" if v == rank else ("dyn" if v[0] == "as_bool" and is_dyn(v[1]) else None), path)
+
+    out += "Definition call_rejects (dyn : bool) (rank : Z) : bool := %s.\n" % em.raises(t)
+    ok = X.prune_raises(t)
+    want = ("call", ("attr", S("self"), "mask_func"), (shape, ("star", S("args"))), (("**", S("kwargs")),))
+    for conds, lf in X.leaves(ok):
+        if lf[1] != want:
+            raise Untranslatable("__call__: the result is not self.mask_func(shape, *args, **kwargs): %s" % X.show(lf[1])[:100], None, path)
     # ---- slope bisection skeleton ----
     fn = pg.find_def(tree, "VariableDensityPoissonMaskFunc.poisson", path)
     loop = [s for s in fn.body if isinstance(s, ast.While)]
